@@ -252,6 +252,9 @@ func (r *Runner) mine(caseID string) bool {
 	if r.replay != nil {
 		return r.replay.Case == caseID
 	}
+	if f := os.Getenv("VERIF_CASE_FILTER"); f != "" && !strings.Contains(caseID, f) {
+		return false
+	}
 	n := r.caseNo
 	r.caseNo++
 	if n%r.shardN != r.shardI {
@@ -345,6 +348,13 @@ func (r *Runner) runOne(prefix []int, trace bool, body func(x *X) Result) (x *X,
 	return
 }
 
+// PanicInfo must be called from the deferred function that recovered e: it returns the violation
+// class ("panic:<normalised message>@<innermost non-runtime function>") and a text with the stack.
+func PanicInfo(e interface{}) (class, text string) {
+	msg := fmt.Sprint(e)
+	return "panic:" + NormalisePanic(msg) + "@" + panicSite(), "panic: " + msg + "\n" + shortStack()
+}
+
 // NormalisePanic strips numbers so that the class does not depend on the failing values.
 func NormalisePanic(msg string) string {
 	var b strings.Builder
@@ -403,31 +413,61 @@ func panicSite() string {
 	return "?"
 }
 
-// DFSSharded is DFS with the case's tree divided among all shards by the first `depth` choices
-// (every shard walks the tree; a subtree that belongs to another shard costs one execution).
+// DFSSharded is DFS with the case's tree divided among all shards: a subtree is identified by the
+// position and value of the first non-zero choice (with deviation bounding the tree is extremely
+// unbalanced along fixed-depth prefixes, but well balanced along "where the first deviation happens").
+// Every shard walks the spine; foreign subtrees are skipped without being executed.
 func (r *Runner) DFSSharded(caseID string, maxDev int, depth int, body func(x *X) Result) {
-	r.prefixDepth = depth
+	r.prefixDepth = 1
 	defer func() { r.prefixDepth = 0 }()
 	r.DFS(caseID, maxDev, body)
 }
 
-func (r *Runner) ownsPrefix(c []int) bool {
-	d := r.prefixDepth
-	if d == 0 || r.shardN <= 1 {
-		return true
+// nonzeros returns the positions of the first two non-zero choices (-1 if absent).
+func nonzeros(c []int) (int, int) {
+	p1, p2 := -1, -1
+	for i, v := range c {
+		if v != 0 {
+			if p1 < 0 {
+				p1 = i
+			} else {
+				p2 = i
+				break
+			}
+		}
 	}
-	if len(c) < d {
-		return r.shardI == 0
+	return p1, p2
+}
+
+func hmix(h uint64, v int) uint64 {
+	h = (h ^ uint64(v+1)) * 1099511628211
+	return h ^ (h >> 29)
+}
+
+// ownsSubtree: which shard records the execution with choice vector c. Subtrees are identified by
+// the first two non-zero choices; skippable reports whether the whole subtree below the second
+// non-zero position has this one owner (so a foreign one need not be executed at all).
+func (r *Runner) ownsSubtree(c []int) (mine bool, skipAt int) {
+	if r.prefixDepth == 0 || r.shardN <= 1 {
+		return true, -1
 	}
-	h := uint64(1469598103934665603)
-	for _, v := range c[:d] {
-		h = (h ^ uint64(v+1)) * 1099511628211
+	p1, p2 := nonzeros(c)
+	if p1 < 0 {
+		return r.shardI == 0, -1
 	}
-	return int(h%uint64(r.shardN)) == r.shardI
+	h := hmix(hmix(14695981039346656037, p1), c[p1])
+	if p2 < 0 {
+		return int(h%uint64(r.shardN)) == r.shardI, -1
+	}
+	h = hmix(hmix(h, p2), c[p2])
+	return int(h%uint64(r.shardN)) == r.shardI, p2
 }
 
 // DFS enumerates all choice sequences of body for one case. maxDev<0 means no deviation bound.
 func (r *Runner) DFS(caseID string, maxDev int, body func(x *X) Result) {
+	if f := os.Getenv("VERIF_CASE_FILTER"); f != "" && r.replay == nil && !strings.Contains(caseID, f) {
+		return
+	}
 	if r.prefixDepth > 0 && r.replay == nil {
 		// every shard takes part
 		if r.resume != nil && r.resume.Case != caseID {
@@ -446,6 +486,7 @@ func (r *Runner) DFS(caseID string, maxDev int, body func(x *X) Result) {
 	var ar []int
 	var dv []bool
 	first := true
+	evalsBefore := r.sum.Evaluations
 	if r.resume != nil {
 		cur, ar, dv = r.resume.Choices, r.resume.Arity, r.resume.IsDev
 		r.resume = nil
@@ -480,22 +521,28 @@ func (r *Runner) DFS(caseID string, maxDev int, body func(x *X) Result) {
 		}
 		// arity of the prefix positions is known from the previous execution
 		r.writeCur(caseID, cur, ar[:min(len(ar), len(cur))], dv[:min(len(dv), len(cur))])
+		if mine, p := r.ownsSubtree(cur); !mine && p >= 0 && p < len(ar) {
+			// foreign subtree: skip it without executing (arities of the prefix are known)
+			nxt, ok := step(cur[:p+1], ar[:p+1], dv[:p+1], maxDev)
+			if !ok {
+				break
+			}
+			cur = nxt
+			continue
+		}
 		x, res := r.runOne(cur, false, body)
 		ar, dv = x.Arity, x.IsDev
-		cs, as, ds := x.Choices, x.Arity, x.IsDev
-		if r.ownsPrefix(x.Choices) {
+		if mine, _ := r.ownsSubtree(x.Choices); mine {
 			r.record(caseID, x, res, nil)
-		} else if r.prefixDepth > 0 && len(cs) >= r.prefixDepth {
-			// foreign subtree: skip to its next sibling
-			cs, as, ds = cs[:r.prefixDepth], as[:r.prefixDepth], ds[:r.prefixDepth]
 		}
-		nxt, ok := step(cs, as, ds, maxDev)
+		nxt, ok := step(x.Choices, x.Arity, x.IsDev, maxDev)
 		if !ok {
 			break
 		}
 		cur = nxt
 	}
 	r.sum.CasesDone++
+	r.sum.Extra["evals:"+caseID] += r.sum.Evaluations - evalsBefore
 }
 
 func min(a, b int) int {
